@@ -560,3 +560,35 @@ pub fn word_fields(b: &[u8], boxes: &[PBox], inside: bool, out: &mut Vec<Field>)
         }
     }
 }
+
+/// Canonical rendering for order-insensitive comparison: children of containers whose child order
+/// carries no meaning in ISO/IEC 14496-12 are sorted (recursively) by their canonical bytes.
+pub fn canonical(b: &[u8]) -> Vec<u8> {
+    fn canon_box(b: &[u8], pb: &PBox) -> Vec<u8> {
+        let order_free = matches!(&pb.typ[..], b"moov" | b"trak" | b"mdia" | b"minf" | b"stbl" | b"traf" | b"moof" | b"mvex" | b"udta" | b"edts" | b"dinf" | b"ilst") ;
+        let mut out = b[pb.start..pb.start + pb.header + pb.prefix.min(pb.size - pb.header)].to_vec();
+        if pb.children.is_empty() {
+            return b[pb.start..pb.end()].to_vec();
+        }
+        let mut kids: Vec<Vec<u8>> = pb.children.iter().map(|c| canon_box(b, c)).collect();
+        if order_free {
+            kids.sort();
+        }
+        for k in kids {
+            out.extend(k);
+        }
+        // trailing bytes after the last child (none in strict walks)
+        let last_end = pb.children.last().map(|c| c.end()).unwrap_or(pb.end());
+        out.extend_from_slice(&b[last_end..pb.end()]);
+        out
+    }
+    let top = walk_lenient(b);
+    let mut out = Vec::new();
+    for pb in &top {
+        out.extend(canon_box(b, pb));
+    }
+    if top.is_empty() {
+        return b.to_vec();
+    }
+    out
+}
